@@ -32,6 +32,7 @@ def run_task(line, surf, engine):
         res = {"status": "harness_error", "error": "unknown task %r" % (t,)}
     res["tag"] = task.get("tag")
     res["hashseed"] = int(os.environ.get("PYTHONHASHSEED", "0") or 0)
+    res["env"] = {"hashseed": res["hashseed"], "tz": os.environ.get("TZ", ""), "opt": bool(sys.flags.optimize)}
     return res
 
 
